@@ -36,6 +36,7 @@ import CookModel.Lemmas.DiagPlaceDocMore
 import CookModel.Lemmas.DiagPlaceInter
 import CookModel.Lemmas.DiagPlaceDocName
 import CookModel.Lemmas.DiagPlaceSingle
+import CookModel.Lemmas.DiagPlaceInterCw
 /-
   C07  Diagnostics are sound, complete and placed on the offending construct.
 
@@ -4667,5 +4668,91 @@ example : ((parseRecipe (α := Rat) C07_vEnvM (render ([] ++ plDocSpec C07_sDoc3
     ([⟨.error, .parse, "cookware-recipe-modifier", [⟨25, 26⟩]⟩], false) := by decide +kernel
 example : (parseRecipe (α := Rat) C07_vEnvM ">> source: grandma\n\nUse @&&salt now\n".toList).diags.toList =
     [⟨.error, .parse, "duplicate-modifier", [⟨25, 27⟩]⟩] := by decide +kernel
+
+/-! ### `inter-ref-not-allowed:cookware` as a placement piece, step and document level (wave 10) -/
+
+/-- the cookware event of `#&( inner )name{}` planted after `A` in `T`: `&` flag -/
+def C07_interCw (T A : List Tok) (tm tand top : Tok) (inner : List Tok) (tcp : Tok) (nameT : List Tok) (tob : Tok)
+    (Q : List Tok) (tcb : Tok) : Ev α :=
+  .cookware ⟨⟨⟨Modifiers.empty.insert Modifiers.REF, tokensSpan (tand :: top :: (inner ++ [tcp]))⟩,
+      buildText (offAt T (A.length + 1 + (c07i_mods [] tand top inner tcp []).length)) nameT, none, none, none⟩,
+    ⟨offAt T A.length,
+     offAt T (A.length + (c07p_comp tm (c07i_mods [] tand top inner tcp []) nameT tob Q tcb).length)⟩⟩
+
+/-- **An intermediate reference on a cookware item, wherever it stands** (`#&(1)pot{}`; COMPONENT_MODIFIERS and
+    INTERMEDIATE_PREPARATIONS on; closes the cookware part left open by `C07_planted_inter_ref_family_partial`).  A
+    cookware item with modifier tokens exactly `&` `(` inner `)`, a non-blank name without alias separator, blank
+    braces, not followed by `(`.  One iteration of the step loop pushes EXACTLY `inter-ref-not-allowed:cookware` (error,
+    parse; labelled with the span of the data = the group `( … )`, inside the construct), then the item with the `&`
+    flag on the byte range of the construct:
+    * generic: whenever the data reader ACCEPTS the group with data `dd` without pushing anything;
+    * the group holds one integer `i ≤ 32767` (and blanks): the label is the span of `( … )`.
+    (A REJECTED group on cookware pushes the rejection only: no data, so no `inter-ref-not-allowed` — not stated here.) -/
+theorem C07_planted_inter_ref_cookware (T A rest : List Tok) (cs : CharSpec) (e : Ext) (hw : WF T)
+    (tm tand top : Tok) (inner : List Tok) (tcp : Tok) (nameT : List Tok) (tob : Tok) (Q : List Tok) (tcb : Tok)
+    (hT : T = A ++ (c07p_comp tm (c07i_mods [] tand top inner tcp []) nameT tob Q tcb ++ rest))
+    (sh : PlShapeI e .hash tm [] tand top inner tcp [] nameT tob Q tcb rest)
+    (hQ : ∀ t ∈ Q, isPadK t = true)
+    (ha : e.has Gen.EXT_COMPONENT_ALIAS = false ∨ ∀ t ∈ nameT, t.kind ≠ .or)
+    (hname : (buildText (offAt T (A.length + 1 + (c07i_mods [] tand top inner tcp []).length)) nameT).isTextEmpty cs
+      = false) :
+    (∀ dd : Loc InterData,
+      (∀ s0 : BP α, parseInterRef (α := α) (top :: (inner ++ tcp :: [])) s0 = ((some dd, []), s0)) →
+      PlPieceAt (α := α) T cs e A ⟨c07p_comp tm (c07i_mods [] tand top inner tcp []) nameT tob Q tcb, fun evs =>
+        evs = [.error ⟨.error, .parse, "inter-ref-not-allowed:cookware", [dd.span]⟩,
+          C07_interCw T A tm tand top inner tcp nameT tob Q tcb]⟩) ∧
+    (∀ i, inner.filter nonBlankTok = [i] → i.kind = .int → digitsToNat i.text ≤ 32767 →
+      PlPieceAt (α := α) T cs e A ⟨c07p_comp tm (c07i_mods [] tand top inner tcp []) nameT tob Q tcb, fun evs =>
+        evs = [.error ⟨.error, .parse, "inter-ref-not-allowed:cookware", [tokensSpan (top :: (inner ++ [tcp]))]⟩,
+          C07_interCw T A tm tand top inner tcp nameT tob Q tcb]⟩) := by
+  have g := c07j_cookware_inter_piece (α := α) T A rest cs e tm tand top inner tcp nameT tob Q tcb hT hw sh hQ ha hname
+  exact ⟨g, fun i h h1 h2 => g _ (fun s0 => parseInterRef_good top tcp inner [] s0 sh.hop sh.hcp sh.hin i h h1 h2)⟩
+
+/-- **Instance: an intermediate reference on a cookware item planted in a document.**  The construct is given by
+    SPECIFICATION tokens `# & ( innerS ) nameS { QS }` (`PlShapeI` on them; the group holds one integer `≤ 32767` and
+    blanks; a name showing a non-blank character in a plain token, no alias separator, blank braces).  On every actual
+    block the construct is a piece: EXACTLY `inter-ref-not-allowed:cookware` labelled with the byte range of the
+    ACTUAL group `( … )`, then the item (`c07v_interSpec`): the hypothesis `hB` of `C07_planted_document`. -/
+theorem C07_planted_document_inter_ref_cookware (env : Env) (pre post : List SegX) (tmS tandS topS : Tok)
+    (innerS : List Tok) (tcpS : Tok) (nameS : List Tok) (tobS : Tok) (QS : List Tok) (tcbS : Tok)
+    (sh : PlShapeI env.ext .hash tmS [] tandS topS innerS tcpS [] nameS tobS QS tcbS (post.flatMap SegX.spell))
+    (hQ : ∀ t ∈ QS, isPadK t = true)
+    (halias : env.ext.has Gen.EXT_COMPONENT_ALIAS = false ∨ ∀ t ∈ nameS, t.kind ≠ .or)
+    (hname : ∃ t ∈ nameS, plainKind t.kind = true ∧ NBs env.cs t.text)
+    (iS : Tok) (hf : innerS.filter nonBlankTok = [iS]) (hi : iS.kind = .int) (hfit : digitsToNat iS.text ≤ 32767) :
+    ∀ (T tpre tB tpost : List Tok), T = tpre ++ (tB ++ tpost) → Spells tpre (pre.flatMap SegX.spell) →
+      Spells tB (c07p_comp tmS (c07i_mods [] tandS topS innerS tcpS []) nameS tobS QS tcbS) →
+      Spells tpost (post.flatMap SegX.spell) → RunAt (baseOff T) T →
+      PlPieceAt (α := α) T env.cs env.ext tpre ⟨tB, c07v_interSpec innerS nameS QS tB
+        (fun tm tand top inner tcp nameT tob Q tcb evs =>
+          evs = [.error ⟨.error, .parse, "inter-ref-not-allowed:cookware", [tokensSpan (top :: (inner ++ [tcp]))]⟩,
+            C07_interCw T tpre tm tand top inner tcp nameT tob Q tcb])⟩ := by
+  intro T tpre tB tpost hT _ hsB hpost hrun
+  obtain ⟨tm, tand, top, inner, tcp, nameT, tob, Q, tcb, rfl, ki, k3, k5, sh'⟩ := c07v_inter_spells_inv sh hsB hpost
+  have hw : WF T := ⟨by rw [hT]; simp [c07p_comp], hrun⟩
+  have hf' := c07v_filter_transfer ki
+  rw [hf] at hf'
+  obtain ⟨i', e1, ki', ti⟩ := hf'.single_inv
+  exact ((C07_planted_inter_ref_cookware (α := α) T tpre tpost env.cs env.ext hw tm tand top inner tcp nameT tob Q tcb
+    hT sh' (c07v_pad_transfer k5 hQ) (c07x_alias_transfer k3 halias) (c07x_name_transfer k3 hname _)).2 i' e1
+    (ki'.trans hi) (by rw [ti]; exact hfit)).mono
+    (fun evs he => ⟨tm, tand, top, inner, tcp, nameT, tob, Q, tcb, rfl, sh'.hop, sh'.hcp, ki, k3, k5, he⟩)
+
+/-! non-vacuity: `Use #&(1)pot{} now` under COMPONENT_MODIFIERS + INTERMEDIATE_PREPARATIONS given by specification tokens:
+    the hypotheses hold; in the document `>> source: grandma` / blank / that step the evaluated report is exactly
+    `inter-ref-not-allowed:cookware` on the group ⟨26,29⟩. -/
+theorem C07_vShapeICw : PlShapeI C07_vEnvI.ext .hash (tk .hash ['#']) [] (tk .and ['&']) (tk .openParen ['('])
+    [tk .int ['1']] (tk .closeParen [')']) [] C07_xPot (tk .openBrace ['{']) [] (tk .closeBrace ['}'])
+    (C07_plPost.flatMap SegX.spell) :=
+  ⟨rfl, by decide, by decide, (by intro t h; cases h), rfl, rfl, (by intro t h; simp at h; subst h; decide), rfl,
+   (by intro t h; cases h), (by intro t h; simp [C07_xPot] at h; subst h; decide),
+   (by intro t h; simp [C07_xPot] at h; subst h; decide),
+   rfl, (by intro t h; cases h), rfl, (by intro t h; simp [C07_plPost, SegX.spell] at h; subst h; decide)⟩
+example := C07_planted_document_inter_ref_cookware (α := Rat) C07_vEnvI C07_plPre' C07_plPost _ _ _ _ _ _ _ _ _
+    C07_vShapeICw (by intro t h; cases h) (Or.inl (by decide))
+    ⟨tk .word "pot".toList, by simp [C07_xPot], rfl, 'p', by simp [tk], by decide⟩ (tk .int ['1']) (by decide) rfl
+    (by decide)
+example : (parseRecipe (α := Rat) C07_vEnvI ">> source: grandma\n\nUse #&(1)pot{} now\n".toList).diags.toList =
+    [⟨.error, .parse, "inter-ref-not-allowed:cookware", [⟨26, 29⟩]⟩] := by decide +kernel
 
 end Cook
